@@ -142,9 +142,8 @@ def _fold_oracle(np, vals, mask):
             out[idx] = vals[idx] + vals[rev]
         else:
             out[idx] = 0.5 * vals[idx] + 0.5 * vals[rev]
-    # fold() builds its result with the Spectrum constructor's default mask_corners=True: the 'absent' corner is
-    # masked in every folded model (the 'fixed' corner is folded out anyway).  Convention, not a finding.
-    omask[(0,) * vals.ndim] = True
+    # literal C09 mask law (union of own and mirror masks, folded-out half masked): an unmasked 'absent' corner stays unmasked
+    # (fold() used to mask it through the constructor default; fixed, see known_findings.json C09 fold-masks-unmasked-corners)
     return out, omask
 
 
